@@ -1,3 +1,4 @@
+#![recursion_limit = "256"]
 mod checks;
 mod driver;
 mod gen;
@@ -112,6 +113,13 @@ struct Agg {
     samples: Vec<serde_json::Value>,
     /// coverage feature -> (scenarios showing it, lowest scenario index showing it)
     features: BTreeMap<u64, (u64, u64)>,
+    /// scenarios (by index) that showed a state context first (within their generation)
+    keep: BTreeMap<u64, Scenario>,
+    /// the scenario of every index that produced a hit (needed to triage hits of later generations)
+    hit_scenarios: BTreeMap<u64, Scenario>,
+    generations: Vec<serde_json::Value>,
+    /// order-independent digest over (scenario index, event-log digest) of the whole search
+    batch_digest: u64,
     determinism_checked: u64,
     determinism_mismatch: u64,
 }
@@ -157,48 +165,87 @@ fn seed_for(base: u64, i: u64) -> u64 {
     base.wrapping_mul(1u64 << 32).wrapping_add(i)
 }
 
-fn run_batch(prop: &str, thorough: bool, base_seed: u64, count: u64, wall_cap_s: f64, threads: usize) -> (Agg, bool) {
-    let gp = gen::params_for(prop, thorough);
-    let corpus = load_corpus();
-    let corpus = &corpus;
-    let known = load_known();
-    let known = &known;
-    let next = AtomicU64::new(0);
-    let stop = AtomicBool::new(false);
-    let t0 = Instant::now();
-    let opts = RunOpts { prop: prop.to_string(), thorough };
+fn empty_agg() -> Agg {
+    Agg {
+        scenarios: 0,
+        rep: RunReport::default(),
+        inter: BTreeSet::new(),
+        shapes: BTreeSet::new(),
+        shapes_nontrivial: BTreeSet::new(),
+        hits: Vec::new(),
+        hit_scenarios: BTreeMap::new(),
+        other_props: BTreeMap::new(),
+        other_props_listed: BTreeMap::new(),
+        features: BTreeMap::new(),
+        keep: BTreeMap::new(),
+        generations: Vec::new(),
+        batch_digest: 0,
+        samples: Vec::new(),
+        determinism_checked: 0,
+        determinism_mismatch: 0,
+    }
+}
+
+fn merge_agg(total: &mut Agg, a: Agg) {
+    total.scenarios += a.scenarios;
+    total.inter.extend(a.inter);
+    total.shapes.extend(a.shapes);
+    total.shapes_nontrivial.extend(a.shapes_nontrivial);
+    total.hits.extend(a.hits);
+    total.hit_scenarios.extend(a.hit_scenarios);
+    for (k, n) in a.other_props {
+        *total.other_props.entry(k).or_insert(0) += n;
+    }
+    for (k, n) in a.other_props_listed {
+        *total.other_props_listed.entry(k).or_insert(0) += n;
+    }
+    total.samples.extend(a.samples);
+    for (f, (n, i)) in a.features {
+        let e = total.features.entry(f).or_insert((0, i));
+        e.0 += n;
+        e.1 = e.1.min(i);
+    }
+    total.keep.extend(a.keep);
+    total.batch_digest ^= a.batch_digest;
+    total.determinism_checked += a.determinism_checked;
+    total.determinism_mismatch += a.determinism_mismatch;
+    add_report(&mut total.rep, a.rep);
+}
+
+/// One generation: scenarios `from..to` (global indices), produced by `source`, fanned over the threads.
+/// `seen` = the coverage features of all earlier generations (read-only here).
+#[allow(clippy::too_many_arguments)]
+fn run_generation(
+    opts: &RunOpts,
+    known: &KnownFindingsFile,
+    base_seed: u64,
+    from: u64,
+    to: u64,
+    threads: usize,
+    t0: Instant,
+    wall_cap_s: f64,
+    stop: &AtomicBool,
+    seen: &BTreeMap<u64, (u64, u64)>,
+    regenerable: bool,
+    source: &(dyn Fn(u64) -> Scenario + Sync),
+) -> Agg {
+    let next = AtomicU64::new(from);
     let mut aggs: Vec<Agg> = Vec::new();
     std::thread::scope(|s| {
         let mut handles = Vec::new();
         for _ in 0..threads {
-            let gp = gp.clone();
             let next = &next;
-            let stop = &stop;
-            let opts = &opts;
             handles.push(
                 std::thread::Builder::new()
                     .stack_size(64 << 20)
                     .spawn_scoped(s, move || {
-                        let mut a = Agg {
-                            scenarios: 0,
-                            rep: RunReport::default(),
-                            inter: BTreeSet::new(),
-                            shapes: BTreeSet::new(),
-                            shapes_nontrivial: BTreeSet::new(),
-                            hits: Vec::new(),
-                            other_props: BTreeMap::new(),
-                            other_props_listed: BTreeMap::new(),
-                            features: BTreeMap::new(),
-                            samples: Vec::new(),
-                            determinism_checked: 0,
-                            determinism_mismatch: 0,
-                        };
+                        let mut a = empty_agg();
                         loop {
                             if stop.load(Ordering::Relaxed) {
                                 break;
                             }
                             let i = next.fetch_add(1, Ordering::Relaxed);
-                            if i >= count {
+                            if i >= to {
                                 break;
                             }
                             if i % 64 == 0 && t0.elapsed().as_secs_f64() > wall_cap_s {
@@ -206,9 +253,10 @@ fn run_batch(prop: &str, thorough: bool, base_seed: u64, count: u64, wall_cap_s:
                                 break;
                             }
                             let seed = seed_for(base_seed, i);
-                            let sc = scenario_for(corpus, &gp, base_seed, i);
+                            let sc = source(i);
                             let rep = run_scenario(&sc, opts);
                             a.scenarios += 1;
+                            a.batch_digest ^= rng::hash2(i, rep.log_digest ^ rng::hash2(rep.violations.len() as u64, 17));
                             // determinism sample: re-execute 1% in-process and compare digests
                             if i % 100 == 7 {
                                 let rep2 = run_scenario(&sc, opts);
@@ -220,19 +268,35 @@ fn run_batch(prop: &str, thorough: bool, base_seed: u64, count: u64, wall_cap_s:
                             if i < 3 {
                                 a.samples.push(json!({"seed": seed, "scenario": sc, "violations_any_property": rep.violations.iter().map(|(r, v)| format!("round {} {} {}", r, v.prop, v.clause)).collect::<Vec<_>>()}));
                             }
+                            let mut hit = false;
                             for (r, vi) in rep.violations.iter() {
                                 if vi.prop == opts.prop {
                                     a.hits.push((i, *r, vi.clone()));
+                                    hit = true;
                                 } else if known.findings.iter().any(|k| matches_known(k, vi.prop, vi, &sc, *r)) {
                                     *a.other_props_listed.entry(vi.prop).or_insert(0) += 1;
                                 } else {
                                     *a.other_props.entry(vi.prop).or_insert(0) += 1;
                                 }
                             }
+                            if hit && (!regenerable || a.hit_scenarios.len() < 4096) {
+                                a.hit_scenarios.insert(i, sc.clone());
+                            }
+                            // coverage feedback: keep the scenario if it shows a state context that neither an
+                            // earlier generation nor (so far) this worker has seen. (The globally first witness
+                            // of a context is always the first one its own worker sees, so the selection made
+                            // afterwards from the lowest index per context does not depend on thread timing.)
+                            let mut fresh = false;
                             for f in rep.features.iter() {
+                                if !seen.contains_key(f) && !a.features.contains_key(f) {
+                                    fresh = true;
+                                }
                                 let e = a.features.entry(*f).or_insert((0, i));
                                 e.0 += 1;
                                 e.1 = e.1.min(i);
+                            }
+                            if fresh {
+                                a.keep.insert(i, sc);
                             }
                             merge_report(&mut a, rep);
                         }
@@ -245,30 +309,86 @@ fn run_batch(prop: &str, thorough: bool, base_seed: u64, count: u64, wall_cap_s:
             aggs.push(h.join().unwrap());
         }
     });
-    let capped = stop.load(Ordering::Relaxed);
-    let mut total = aggs.pop().unwrap();
+    let mut total = empty_agg();
     for a in aggs {
-        total.scenarios += a.scenarios;
-        total.inter.extend(a.inter);
-        total.shapes.extend(a.shapes);
-        total.shapes_nontrivial.extend(a.shapes_nontrivial);
-        total.hits.extend(a.hits);
-        for (k, n) in a.other_props {
-            *total.other_props.entry(k).or_insert(0) += n;
-        }
-        for (k, n) in a.other_props_listed {
-            *total.other_props_listed.entry(k).or_insert(0) += n;
-        }
-        total.samples.extend(a.samples);
-        for (f, (n, i)) in a.features {
-            let e = total.features.entry(f).or_insert((0, i));
-            e.0 += n;
-            e.1 = e.1.min(i);
-        }
-        total.determinism_checked += a.determinism_checked;
-        total.determinism_mismatch += a.determinism_mismatch;
-        add_report(&mut total.rep, a.rep);
+        merge_agg(&mut total, a);
     }
+    total
+}
+
+/// The search: generation 0 is purely random (generator + corpus variants); every later generation
+/// mutates the scenarios of the generations before it that were the FIRST to show some joint engine
+/// state (coverage feedback). Everything is a function of (seed, count): scenario `i` of generation g
+/// depends only on the merged, index-ordered results of generations < g.
+fn run_batch(prop: &str, thorough: bool, base_seed: u64, count: u64, wall_cap_s: f64, threads: usize) -> (Agg, bool) {
+    let gp = gen::params_for(prop, thorough);
+    let corpus = load_corpus();
+    let known = load_known();
+    let stop = AtomicBool::new(false);
+    let t0 = Instant::now();
+    let opts = RunOpts { prop: prop.to_string(), thorough };
+    let feedback = std::env::var("VERIF_NO_FEEDBACK").is_err();
+    // generation sizes: 1/2, then four times 1/8
+    let mut bounds: Vec<u64> = vec![0];
+    if feedback && count >= 64 {
+        bounds.push(count / 2);
+        for k in 1..4 {
+            bounds.push(count / 2 + k * (count / 8));
+        }
+    }
+    bounds.push(count);
+    let mut total = empty_agg();
+    let mut pool: Vec<Scenario> = Vec::new();
+    for g in 0..bounds.len() - 1 {
+        let (from, to) = (bounds[g], bounds[g + 1]);
+        let seen = total.features.clone();
+        let agg = if g == 0 {
+            let src = |i: u64| scenario_for(&corpus, &gp, base_seed, i);
+            run_generation(&opts, &known, base_seed, from, to, threads, t0, wall_cap_s, &stop, &seen, true, &src)
+        } else {
+            let pool_ref = &pool;
+            let gp_ref = &gp;
+            let src = move |i: u64| {
+                let seed = seed_for(base_seed, i);
+                if pool_ref.is_empty() {
+                    gen::generate(seed, gp_ref)
+                } else {
+                    let k = (rng::hash2(seed, 0xFEED) % pool_ref.len() as u64) as usize;
+                    gen::mutate(&pool_ref[k], seed, gp_ref)
+                }
+            };
+            run_generation(&opts, &known, base_seed, from, to, threads, t0, wall_cap_s, &stop, &seen, false, &src)
+        };
+        // new contexts of this generation and their first witnesses
+        let mut fresh_ctx = 0u64;
+        let mut witnesses: BTreeMap<u64, u64> = BTreeMap::new(); // scenario index -> rarity key (min count of its fresh contexts)
+        for (f, (n, i)) in agg.features.iter() {
+            if !seen.contains_key(f) {
+                fresh_ctx += 1;
+                let e = witnesses.entry(*i).or_insert(u64::MAX);
+                *e = (*e).min(*n);
+            }
+        }
+        let mut chosen: Vec<(u64, u64)> = witnesses.iter().map(|(i, n)| (*n, *i)).collect();
+        chosen.sort();
+        chosen.truncate(6000);
+        let mut added = 0u64;
+        for (_, i) in chosen.iter() {
+            if let Some(sc) = agg.keep.get(i) {
+                pool.push(sc.clone());
+                added += 1;
+            }
+        }
+        let gen_info = json!({"generation": g, "scenarios": agg.scenarios, "new_state_contexts": fresh_ctx, "scenarios_added_to_pool": added, "source": if g == 0 { "seeded generator + corpus variants" } else { "mutants of pool scenarios (first witnesses of a state context)" }});
+        let mut agg = agg;
+        agg.keep.clear();
+        merge_agg(&mut total, agg);
+        total.generations.push(gen_info);
+        if stop.load(Ordering::Relaxed) {
+            break;
+        }
+    }
+    let capped = stop.load(Ordering::Relaxed);
     total.hits.sort_by(|x, y| (x.0, x.1, &x.2.clause).cmp(&(y.0, y.1, &y.2.clause)));
     total.samples.sort_by_key(|s| s["seed"].as_u64().unwrap_or(0));
     (total, capped)
@@ -305,12 +425,14 @@ fn merge_report(a: &mut Agg, r: RunReport) {
 
 fn tier_count(prop: &str, thorough: bool) -> (u64, f64) {
     // (scenarios, wall cap seconds)
+    // (the later generations of the search run larger scenarios than the random first one; the counts
+    // keep a quick run at about 20 M engine calls)
     let quick: u64 = match prop {
-        "C09" => 60_000,
-        "C10" => 100_000,
-        "C14" => 250_000,
-        "C07" | "C08" | "C12" | "C15" | "C20" => 400_000,
-        _ => 800_000,
+        "C09" => 36_000,
+        "C10" => 56_000,
+        "C14" => 140_000,
+        "C07" | "C08" | "C12" | "C15" | "C20" => 230_000,
+        _ => 440_000,
     };
     if thorough {
         (quick * 30, 900.0)
@@ -356,7 +478,7 @@ fn cmd_check(prop: &str, tier: &str) -> i32 {
     // every hit is matched individually (a known finding must not mask a different witness of the same clause)
     let corpus = load_corpus();
     for (i, r, vi) in agg.hits.iter() {
-        let sc = scenario_for(&corpus, &gp, base_seed, *i);
+        let sc = agg.hit_scenarios.get(i).cloned().unwrap_or_else(|| scenario_for(&corpus, &gp, base_seed, *i));
         match known.findings.iter().find(|k| matches_known(k, prop, vi, &sc, *r)) {
             Some(k) => {
                 let line = format!("KNOWN-FINDING: property={} {} [{}]", prop, k.description, k.clause);
@@ -381,7 +503,7 @@ fn cmd_check(prop: &str, tier: &str) -> i32 {
     let mut replay_paths: Vec<String> = Vec::new();
     for (i, r, vi) in unknown.iter() {
         let seed = seed_for(base_seed, *i);
-        let sc = scenario_for(&corpus, &gp, base_seed, *i);
+        let sc = agg.hit_scenarios.get(i).cloned().unwrap_or_else(|| scenario_for(&corpus, &gp, base_seed, *i));
         println!("violation candidate: seed={} round={} {} {} :: {}", seed, r, vi.prop, vi.clause, vi.msg);
         let (min_sc, min_round, min_vi) = shrink::shrink(&sc, &opts, vi, &known);
         let rf = ReplayFile {
@@ -467,6 +589,8 @@ fn write_evidence(
             "seeds_per_hour": per_hour(agg.scenarios),
             "distinct_interleavings": agg.inter.len(),
             "distinct_state_contexts": agg.features.len(),
+            "search_generations": agg.generations,
+            "search_digest": format!("{:016x}", agg.batch_digest),
             "state_contexts_seen_in_at_most_3_scenarios": agg.features.values().filter(|(n, _)| *n <= 3).count(),
             "state_context_rule": "one context = the joint engine state (kind, state, validation status of both jobs, required/invalidated flags) along one dependency edge, or along a path of two edges, observed after some engine call",
             "distinct_shapes": agg.shapes.len(),
@@ -761,6 +885,12 @@ fn main() {
         Some("trace") if args.len() >= 3 => cmd_trace(&args[2]),
         Some("cmpcases") if args.len() >= 4 => cmd_cmpcases(args[2].parse().unwrap_or(1000), args[3].parse().unwrap_or(1)),
         Some("shrink") if args.len() >= 5 => cmd_shrink(&args[2], args[3].parse().unwrap_or(0), &args[4], args.iter().any(|a| a == "--thorough")),
+        Some("searchdigest") if args.len() >= 5 => {
+            // the whole search (all generations) of a property, as one digest: must not depend on the thread count
+            let (agg, _) = run_batch(&args[2], false, 1, args[3].parse().unwrap_or(1000), 1e9, args[4].parse().unwrap_or(1));
+            println!("{:016x} scenarios={} contexts={} hits={} generations={}", agg.batch_digest, agg.scenarios, agg.features.len(), agg.hits.len(), serde_json::to_string(&agg.generations).unwrap());
+            0
+        }
         Some("survey") if args.len() >= 4 => cmd_survey(&args[2], args[3].parse().unwrap_or(1000), args.iter().any(|a| a == "--thorough")),
         Some("digest") if args.len() >= 6 => cmd_digest(&args[2], args[3].parse().unwrap(), args[4].parse().unwrap(), args[5].parse().unwrap()),
         Some("c19case") => big::cmd_case(&args[2..]),
